@@ -33,3 +33,16 @@ Example C14_boundaries :
   = [(1%nat, 0); (1%nat, 127); (2%nat, 128); (2%nat, 16383); (3%nat, 16384); (3%nat, 2097151);
      (4%nat, 2097152); (4%nat, 268435455); (5%nat, 268435456); (5%nat, 4294967295)].
 Proof. vm_compute. reflexivity. Qed.
+
+(* entry level: an entry framed by the block writer (varint key length, varint value length, key,
+   value) is returned by Block::entry_at with exactly the inserted key and value bytes and the
+   offset of the next entry, for every key/value length up to u32::MAX and whatever precedes or
+   follows it in the block payload *)
+From Grenad.model Require Import Block.
+From Grenad.proofs Require Import BlockProofs.
+Theorem C14_entry : forall b pre k v post,
+  blk_payload b = pre ++ frame k v ++ post ->
+  len k <= 4294967295 -> len v <= 4294967295 ->
+  entry_at b (len pre) = Done (Some (k, v, len pre + len (frame k v))).
+Proof. intros b pre k v post Hp Hk Hv. apply (entry_at_frame b pre k v post Hp). split; assumption. Qed.
+Print Assumptions C14_entry.
